@@ -22,7 +22,11 @@ def generate(d):
 
 def native_replay(rp, workroot):
     from engine.core import replay_bin
-    return replay_bin("c19", [1000], crate="replay-cluster", timeout=1800)
+    # single-event case: one big incompressible event; multi-event case: many events (real zstd adds ~13 bytes per event,
+    # the model allows the documented worst case, so a per-transaction allowance only shows natively with dozens of events)
+    if rp["harness"] == "c19_one_event":
+        return replay_bin("c19", [1000, 1], crate="replay-cluster", timeout=3000)
+    return replay_bin("c19", [160, 40], crate="replay-cluster", timeout=3000)
 
 
 def spec(tier, seed):
